@@ -1,5 +1,5 @@
 """C10: R3 oracle of get_perm_c (dispatch per ColPerm, index-base pairing around genmmd_), structural rules on get_colamd."""
-from ..facts import strip, callee_name, loc, canon
+from ..facts import strip, callee_name, loc, canon, const_value
 from ..ir import pretty
 from . import r3_dispatch as r3, r7_perm
 from ..props._drv import Flags, Expect, ppos, set_through
@@ -228,4 +228,79 @@ def sentinel_bound_rule(chk, cid, prog, cfgname, funcs=('sp_coletree',)):
                                 cfgname=cfgname)
     if n < 1:
         raise AnalysisBroken('%s: no primed running-minimum table found' % cid)
+    return n
+
+
+def view_header_rule(chk, cid, prog, cfgname):
+    """sp_preorder builds AC, the view of A with permuted columns: same rows, same columns, same data and matrix type.  Every header field that is
+    copied `AC->F = A->G` must have F == G, and nrow / ncol / Dtype / Mtype must all be copied.  (?gstrf takes m from AC->nrow; with the row count
+    of a rectangular matrix replaced the view no longer lists A's columns.)"""
+    from ..run import AnalysisBroken
+    f = prog.func('sp_preorder')
+    if f is None:
+        raise AnalysisBroken('sp_preorder not found')
+    chk.saw(unit=f.unit, func=f.unit + ':' + f.name)
+    ids = {nm: i for (nm, i, t) in f.params}
+    if 'A' not in ids or 'AC' not in ids:
+        raise AnalysisBroken('sp_preorder: parameters A / AC not found')
+    seen = {}
+    for x in f.body.walk():
+        if x.k != 'Assign' or x.a['op'] != '=':
+            continue
+        l, r = strip(x.c[0]), strip(x.c[1])
+        if l.k == 'Member' and strip(l.c[0]).k == 'Ref' and strip(l.c[0]).a.get('id') == ids['AC'] and l.a.get('name') in ('nrow', 'ncol', 'Dtype', 'Mtype'):
+            seen[l.a['name']] = (x, r)
+    n = 0
+    for fld in ('nrow', 'ncol', 'Dtype', 'Mtype'):
+        n += 1
+        inst = 'sp_preorder:AC->%s' % fld
+        if fld not in seen:
+            chk.violate(cid, inst, loc(f, f.body), f.name, 'the permuted-column view never receives its `%s`' % fld, cfgname=cfgname)
+            continue
+        x, r = seen[fld]
+        good = r.k == 'Member' and strip(r.c[0]).k == 'Ref' and strip(r.c[0]).a.get('id') == ids['A'] and r.a.get('name') == fld
+        if good:
+            chk.ok(cid, inst, sample=pretty(x))
+        else:
+            chk.violate(cid, inst, loc(f, x), f.name,
+                        '`%s`: the view of A with permuted columns has the %s of A itself (a rectangular A otherwise yields a view whose columns hold row indices outside it, '
+                        'and ?gstrf sizes its row arrays from it)' % (pretty(x), fld), cfgname=cfgname)
+    return n
+
+
+def mmd_weight_rule(chk, cid, prog, cfgname):
+    """Multiple minimum degree keeps, per supernode representative, the number of original nodes it stands for (qsize[]); the final numbering
+    (slu_mmdnum_) recognises an absorbed node by qsize == 0 and gives it the position of its representative's group.  Conservation: wherever
+    a node's weight is added to another (`qsize[X] += qsize[Y]`), the same block sets `qsize[Y] = 0`.  Without it the absorbed node is numbered as
+    a root of its own and perm_c repeats a label."""
+    from ..run import AnalysisBroken
+    n = 0
+    for f in prog.all_funcs():
+        if f.unit != 'SRC/mmd.c':
+            continue
+        for blk in f.body.walk():
+            if blk.k != 'Block':
+                continue
+            sts = blk.c
+            for i, s in enumerate(sts):
+                if not (s.k == 'Assign' and s.a['op'] == '+=' and strip(s.c[0]).k == 'Index' and strip(s.c[1]).k == 'Index'):
+                    continue
+                la, ra = strip(s.c[0]), strip(s.c[1])
+                if 'qsize' not in canon(la.c[0], ids=False) or 'qsize' not in canon(ra.c[0], ids=False):
+                    continue
+                chk.saw(unit=f.unit, func=f.unit + ':' + f.name)
+                n += 1
+                y = canon(ra.c[1], ids=False)
+                inst = '%s:absorb(%s<-%s)' % (f.name, canon(la.c[1], ids=False), y)
+                zero = [t for t in sts[i + 1:] if t.k == 'Assign' and t.a['op'] == '=' and strip(t.c[0]).k == 'Index' and 'qsize' in canon(strip(t.c[0]).c[0], ids=False)
+                        and canon(strip(t.c[0]).c[1], ids=False) == y and const_value(t.c[1]) == 0]
+                if zero:
+                    chk.ok(cid, inst, sample='`%s` then `%s`' % (pretty(s), pretty(zero[0])))
+                else:
+                    chk.violate(cid, inst, loc(f, s), f.name,
+                                '`%s` moves the weight of %s to its absorber, but qsize[%s] is not set to 0 afterwards: the weights no longer sum to the number of '
+                                'columns and the final numbering, which recognises absorbed nodes by a zero weight, labels the node as a root - perm_c repeats a value' % (pretty(s), y, y),
+                                cfgname=cfgname)
+    if n < 2:
+        raise AnalysisBroken('mmd_weight_rule: %d absorptions found in mmd.c, floor 2' % n)
     return n
